@@ -194,11 +194,13 @@ class _MCQuad(torch.autograd.Function):
                     fout = function_wrap(ffcn, ctx.fparam_sep, nfparams, x, ftensor_params)
                     pout = function_wrap(log_pfcn, ctx.pparam_sep, npparams, x, ptensor_params)
                 # if graph is not constructed, then fptensor_params in this
-                # function *is* fptensor_params in the outside, so we can
-                # just use fparams and pparams from the outside
+                # function is a detached copy of fptensor_params in the outside
+                # (so that a parameter which is computed from another parameter,
+                # or given twice, is not differentiated through twice), which
+                # needs to be put in the pure function's objects as well
                 else:
-                    fout = ffcn(x, *fparams)
-                    pout = log_pfcn(x, *pparams)
+                    fout = function_wrap(ffcn, ctx.fparam_sep, nfparams, x, ftensor_params)
+                    pout = function_wrap(log_pfcn, ctx.pparam_sep, npparams, x, ptensor_params)
             # derivative of fparams
             dLdthetaf = []
             if len(ftensor_params) > 0:
@@ -224,7 +226,7 @@ class _MCQuad(torch.autograd.Function):
         if grad_enabled:
             fptensor_params_copy = [y.clone().requires_grad_() for y in fptensor_params]
         else:
-            fptensor_params_copy = fptensor_params
+            fptensor_params_copy = [y.detach().requires_grad_() for y in fptensor_params]
 
         aug_epfs = _mcquad(aug_function, log_pfcn,
                            x0=xsamples[0],  # unused because xsamples is set
